@@ -1,15 +1,20 @@
 package props
 
-import "osmolint/internal/rules"
+import (
+	"fmt"
+	"strings"
+
+	"osmolint/internal/rules"
+)
 
 func init() {
 	register(&Prop{
 		ID: "C16",
-		Explanation: "Sum-tree, query side only: decides which components of the three-way split (left, exact, right) each range-sum API adds, that Increase/Decrease are read-modify-write on the same key with the same amount (negated for Decrease), " +
-			"that the leaf case of the split maps key comparison -1/0/+1 to left/exact/right, and that a nil (open) bound is never used as a real key without the nil test.",
-		NotCovered:  []string{"everything in node.go (push/split/pull/merge), i.e. the B+-tree itself", "equivalence with a sorted map over operation sequences", "all fan-out settings"},
-		Assumptions: []string{"accumulationSplit's inner-node recursion (node.go helpers) is correct"},
-		MinObl:      22,
+		Explanation: "Sum-tree. Query side: which components of the three-way split (left, exact, right) each range-sum API adds, Increase/Decrease as read-modify-write on the same key with the same (negated) amount, the leaf case mapping key comparison -1/0/+1 to left/exact/right, nil (open) bounds never used as real keys, and the interior case descending into child idx only when it exists. " +
+			"Node side: the node value stored by set() is the one whose accumulate() the parent is told (push, pull, merge, updateAccumulation); an emptied node leaves its parent under its own key and is deleted only when the left sibling inheriting its range has the same parent; merges only under one parent and within the fan-out; the 8-bit split position cannot wrap; split/merge bounds; unknown children fail loudly.",
+		NotCovered:  []string{"equivalence with a sorted map over operation sequences as such (necessary conditions only)", "iteration order", "all fan-out settings as values"},
+		Assumptions: []string{"KV store iterators return keys in byte order (parent()/leftSibling()/rightSibling() rely on it)"},
+		MinObl:      50,
 		Run:         runC16,
 	})
 }
@@ -50,4 +55,67 @@ func runC16(c *rules.Ctx) {
 	c.OnlyWhenReturn(T+"Get", "sdkmath.ZeroInt()", "not(storetypes.KVStore.Has(t.store, sumtree.Tree.leafKey(t,key)))", "a missing key reads as zero")
 	c.HasCall(T+"Get", "storetypes.KVStore.Get", []string{"t.store", "sumtree.Tree.leafKey(t,key)"}, false, "Get reads the leaf of the requested key", "")
 	c.HasCall(T+"Set", "sumtree.NewLeaf", []string{"key", "acc"}, true, "Set writes a leaf with the given key and value", "")
+	// ---- interior case of the split: recursion into the child that covers the key, the rest added on each side
+	c.Let("IDX", "phi(sumtree.Node.find(sumtree.ptr.node(ptr),key)#0, sub(sumtree.Node.find(sumtree.ptr.node(ptr),key)#0,1))")
+	c.OnlyWhen(AS, "sumtree.ptr.accumulationSplit", "not(lt({IDX},0))", "the split descends into child idx only when that child exists (a key before every child has everything on its right) [F8]")
+	c.CallArg(AS, "sumtree.ptr.accumulationSplit", 0, "sumtree.Tree.ptrGet(ptr.tree, sub(ptr.level,1), idx(sumtree.ptr.node(ptr).Children,{IDX}).Index)", "the split descends into the child at (or just before) the key's position, one level down")
+	c.CallArg(AS, "sumtree.ptr.accumulationSplit", 1, "key", "…with the same key")
+	c.WhenReturn(AS, "lt({IDX},0)", 2, "sumtree.Node.accumulate(sumtree.ptr.node(ptr))", "a key before every child: the whole node is on the right")
+	// ---- node mutations (node.go)
+	const N = "osmoutils/sumtree.ptr."
+	// what a node is set to is what its parent is told: set(p, n) is paired with Child{p.key, n.accumulate()}
+	for _, fn := range []string{"push", "pull", "updateAccumulation"} {
+		f := c.Fn(N + fn)
+		if f == nil {
+			continue
+		}
+		sets := f.CallsTo("sumtree.ptr.set")
+		if len(sets) == 0 {
+			c.Record("M", N+fn, "set-reported", "node writes exist", false, "no call to sumtree.ptr.set", "")
+			continue
+		}
+		for i, st := range sets {
+			args := f.CallArgs(st)
+			want := "with:Accumulation(with:Index(zero:Child()," + args[0].String() + ".key),sumtree.Node.accumulate(" + args[1].String() + "))"
+			found := false
+			for _, call := range f.Calls() {
+				n := f.CalleeName(call)
+				if n != "sumtree.ptr.updateAccumulation" && n != "sumtree.NewNode" {
+					continue
+				}
+				for _, a := range f.CallArgs(call) {
+					if strings.Contains(a.String(), want) {
+						found = true
+					}
+				}
+			}
+			c.Record("M", N+fn, fmt.Sprintf("set-reported#%d", i+1), "the sum reported to the parent for a node is the sum of exactly the node value that was stored (stored = reported) [F9]", found,
+				map[bool]string{true: "parent receives accumulate() of the stored node", false: "no parent update carries " + want}[found], c.P.Rel(st.Pos()))
+		}
+	}
+	c.Let("LEFT", "sumtree.ptr.leftSibling(ptr)")
+	c.Let("RIGHT", "sumtree.ptr.rightSibling(ptr)")
+	c.Let("PARENT", "sumtree.ptr.parent(ptr)")
+	c.CallArg(N+"pull", "sumtree.ptr.pull[0={PARENT}]", 1, "ptr.key", "an emptied node is removed from its parent under the node's own key")
+	c.CallArg(N+"pull", "sumtree.ptr.pull[0=sumtree.ptr.parent({LEFT})]", 1, "{RIGHT}.key", "a merged-away right sibling is removed from the parent under its own key")
+	c.OnlyWhen(N+"pull", "sumtree.ptr.delete[0=ptr]", "sumtree.ptr.exists({LEFT}) & bytes.Equal(sumtree.ptr.parent({LEFT}).key, {PARENT}.key)", "an emptied node is deleted only when the left sibling that inherits its key range has the same parent [F10]")
+	c.OnlyWhen(N+"pull", "sumtree.ptr.delete[0=ptr]", "not(gt(len(sumtree.Node.delete(_,_).Children),0))", "…and only when it has no child left")
+	c.OnlyWhen(N+"pull", "sumtree.ptr.delete[0={RIGHT}]", "bytes.Equal(sumtree.ptr.parent({LEFT}).key, sumtree.ptr.parent({RIGHT}).key) & lt(add(len(sumtree.ptr.node({LEFT}).Children),len(sumtree.ptr.node({RIGHT}).Children)),ptr.tree.m)", "siblings are merged only under one parent and when the merged node fits")
+	c.CallArg(N+"pull", "sumtree.ptr.set[0={LEFT}]", 1, "sumtree.Node.merge(sumtree.ptr.node({LEFT}), sumtree.ptr.node({RIGHT}))", "the merge keeps the left node's children followed by the right node's")
+	c.FailsWhen(N+"pull", "not(sumtree.Node.find(sumtree.ptr.node(ptr),key)#1)", "pulling a key the node does not hold is a loud error", rules.GuardOpt{Conditional: true})
+	c.CallArg(N+"pull", "sumtree.Node.delete", 1, "sumtree.Node.find(sumtree.ptr.node(ptr),key)#0", "the child removed is the one found for the key")
+	// push: split position and the keys under which the halves are filed
+	c.NoWrap(N+"push", "sumtree.Node.split", 1, "the split position computed from the 8-bit fan-out cannot wrap for any fan-out")
+	c.OnlyWhen(N+"push", "sumtree.Node.split", "gt(len(_.Children), ptr.tree.m)", "a node is split only when it overflows the fan-out")
+	c.FailsWhen(N+"updateAccumulation", "not(sumtree.Node.find(sumtree.ptr.node(ptr),c.Index)#1)", "an accumulation update for a child the node does not hold is a loud error", rules.GuardOpt{Conditional: true})
+	c.CallArg(N+"updateAccumulation", "sumtree.Node.setAcc", 1, "sumtree.Node.find(sumtree.ptr.node(ptr),c.Index)#0", "the entry updated is the one found for the child's key")
+	c.CallArg(N+"updateAccumulation", "sumtree.Node.setAcc", 2, "c.Accumulation", "…and it takes the child's new sum")
+	// Remove / Set route through the leaf's parent
+	c.HasCall(T+"Remove", "sumtree.ptr.pull", []string{"sumtree.ptr.parent(sumtree.Tree.ptrGet(t,0,key))", "key"}, false, "removal pulls the key out of the leaf's parent", "")
+	c.HasCall(T+"Set", "sumtree.ptr.push", []string{"sumtree.ptr.parent(sumtree.Tree.ptrGet(t,0,key))", "_"}, true, "a set pushes the leaf into the leaf's parent", "")
+	// node helpers
+	const ND = "osmoutils/sumtree.Node."
+	c.Returns(ND+"split", 0, "sumtree.NewNode(slice(node.Children,_,idx))", "split: the left half is children[:idx]", "/l")
+	c.Returns(ND+"split", 1, "sumtree.NewNode(slice(node.Children,idx,_))", "split: the right half is children[idx:]", "/r")
+	c.Returns(ND+"merge", 0, "sumtree.NewNode(append(node.Children, node2.Children))", "merge: left children then right children", "")
 }
